@@ -1,8 +1,15 @@
 import GqlModel.Validate.Common
-/-! # Literal validity (`isValidLiteralValue`, rules.go:1722-1810) — minimal local version
+import GqlModel.Coerce
+/-! # Literal validity (`isValidLiteralValue`, rules.go:1722-1810) as the validation rules use it
 
-Worker c05 models literal coercion in `GqlModel/Coerce.lean`; the validation rules only need the yes/no answer and
-reach it through the single function `validLiteral` below, which can be re-pointed later.
+The validation rules reach literal validity through the single function `validLiteral` (end of this file). For a
+type all of whose names the schema resolves — always the case for argument, input-field and directive-argument types,
+which are pointers held by the schema — it IS worker c05's model `Coerce.isValidLiteralValue` (GqlModel/Coerce.lean,
+tied to the real function by C05's own correspondence and to the specification's literal coercion by
+`Coerce.validLiteral_iff_coercible`), evaluated on the schema extended with the introspection types (`Schema.plus`).
+Only for a type written in the DOCUMENT whose named core is unknown (a variable definition `$v: [Nope!] = …`; Go:
+`typeFromAST` gives wrappers around nil) the local structural version `validLitLocal` below is used; it is the
+earlier stand-alone model of the whole function and is kept unchanged.
 
 Deviations of the Go function from a "pure" reading that are reproduced here:
 * a non-null type around an UNKNOWN named type (`NewNonNull(nil)` carries an error) rejects every value, variables too;
@@ -75,7 +82,7 @@ def listTarget (s : Schema) : GType → Target
 
 mutual
 /-- `isValidLiteralValue(type, value)` for a present value -/
-def validLit (s : Schema) (t : Option GType) : Value → Bool
+def validLitLocal (s : Schema) (t : Option GType) : Value → Bool
   | .var _ _ =>
     -- not non-null: accepted at once; non-null: its inner type (never non-null again) accepts it
     match t with
@@ -86,7 +93,7 @@ def validLit (s : Schema) (t : Option GType) : Value → Bool
     | none => true
     | some t =>
       match listTarget s t with
-      | .items it => validLits s (some it) vs
+      | .items it => validLitsLocal s (some it) vs
       | .anything => true
       | .nothing => false
       | _ => false      -- scalars' ParseLiteral, enums and input objects reject a list literal
@@ -96,7 +103,7 @@ def validLit (s : Schema) (t : Option GType) : Value → Bool
     | some t =>
       match leafTarget s t with
       | .object defs _ =>
-        validFields s defs fs
+        validFieldsLocal s defs fs
           && defs.all (fun d => !d.type.isNonNull || fs.any (fun f => f.name.value == d.name))
       | .anything => true
       | _ => false      -- scalars' ParseLiteral and enums reject an object literal
@@ -109,17 +116,17 @@ def validLit (s : Schema) (t : Option GType) : Value → Bool
       | .scalar k => scalarAccepts k v
       | .enum names => (match v with | .enum x _ => names.contains x | _ => false)
       | _ => false
-def validLits (s : Schema) (t : Option GType) : List Value → Bool
+def validLitsLocal (s : Schema) (t : Option GType) : List Value → Bool
   | [] => true
-  | v :: vs => validLit s t v && validLits s t vs
+  | v :: vs => validLitLocal s t v && validLitsLocal s t vs
 /-- every provided field is defined; the last field of each name is valid for its type -/
-def validFields (s : Schema) (defs : List InputFieldS) : List ObjField → Bool
+def validFieldsLocal (s : Schema) (defs : List InputFieldS) : List ObjField → Bool
   | [] => true
   | .mk nm v _ :: rest =>
     (match defs.find? (fun d => d.name == nm.value) with
-      | some d => rest.any (fun f => f.name.value == nm.value) || validLit s (some d.type) v
+      | some d => rest.any (fun f => f.name.value == nm.value) || validLitLocal s (some d.type) v
       | none => false)
-    && validFields s defs rest
+    && validFieldsLocal s defs rest
 end
 
 /-- a type written in the DOCUMENT (variable definition) resolves through the type map (`typeFromAST`): a name that is
@@ -129,9 +136,23 @@ def astType (s : Schema) : GType → GType
   | .list t => .list (astType s t)
   | .nonNull t => .nonNull (astType s t)
 
-/-- `isValidLiteralValue(type, valueAST)` with a possibly absent value (`nil`): absent is fine unless non-null -/
-def validLiteral (s : Schema) (t : Option GType) : Option Value → Bool
-  | some v => validLit s t v
+/-- the stand-alone structural model, with a possibly absent value (`nil`): absent is fine unless non-null -/
+def validLiteralLocal (s : Schema) (t : Option GType) : Option Value → Bool
+  | some v => validLitLocal s t v
   | none => match t with | some (.nonNull _) => false | _ => true
+
+/-- the schema with its introspection types (`__Schema`, `__Type`, …): `plus.find?` = `Schema.resolve` -/
+def _root_.GqlModel.Schema.plus (s : Schema) : Schema := { s with types := s.types ++ introspectionTypes }
+
+/-- the named core of the type is a type the schema holds -/
+def leafResolves (s : Schema) (t : GType) : Bool := (s.resolve t.namedName).isSome
+
+/-- `isValidLiteralValue(type, valueAST)` (`type` nil: `none`; `valueAST` nil: `none`) -/
+def validLiteral (s : Schema) (t : Option GType) (lit : Option Value) : Bool :=
+  match t with
+  | none => true
+  | some t =>
+    if leafResolves s t then Coerce.isValidLiteralValue s.plus t lit
+    else validLiteralLocal s (some t) lit
 
 end GqlModel.Validate
